@@ -182,8 +182,34 @@ pub fn run_build(project: &Project, faults: &[Fault], entropy_seed: u64, style: 
     let faults = faults.to_vec();
     let res = fresh_thread(16 << 20, move || {
         entropy::set_seed(Some(entropy_seed));
+        let o = build_here(&project, &faults, style);
+        entropy::set_seed(None);
+        o
+    });
+    match res {
+        Ok(o) => o,
+        Err(p) => Outcome {
+            status: "panic".into(),
+            files: BTreeMap::new(),
+            diag: String::new(),
+            panic: p
+                .first()
+                .map(|p| format!("{} at {}", p.message, p.location))
+                .unwrap_or_default(),
+            canary: String::new(),
+            entropy_calls: 0,
+            mono_reads: 0,
+            clock_jumps: 0,
+        },
+    }
+}
+
+/// The build itself, in the simulated process the caller has set up (entropy seed, and in the thread flavour the
+/// scheduler): installs the project's disk, runs the real `build_command`, takes the disk away again.
+fn build_here(project: &Project, faults: &[Fault], style: u64) -> Outcome {
+    {
         let mut d0 = project.disk();
-        d0.faults = faults;
+        d0.faults = faults.to_vec();
         disk::install(d0);
         let initial: BTreeSet<_> = disk::with(|d| d.files.keys().cloned().collect()).unwrap();
         let r = std::panic::catch_unwind(std::panic::AssertUnwindSafe(|| {
@@ -234,7 +260,6 @@ pub fn run_build(project: &Project, faults: &[Fault], entropy_seed: u64, style: 
         let canary: String = canary.into_iter().collect();
         let calls = entropy::calls();
         let (mono_reads, clock_jumps) = (entropy::monotonic_reads(), entropy::clock_jumps());
-        entropy::set_seed(None);
         Outcome {
             status,
             files,
@@ -245,23 +270,66 @@ pub fn run_build(project: &Project, faults: &[Fault], entropy_seed: u64, style: 
             mono_reads,
             clock_jumps,
         }
+    }
+}
+
+/// Thread flavour only: one build as one shuttle execution. Every thread the build starts is a task of the
+/// simulator, `sched_seed` decides who runs when. Returns the outcome and (tasks seen, context switches).
+#[cfg(mos_verif_threads)]
+pub fn run_build_scheduled(project: &Project, faults: &[Fault], entropy_seed: u64, style: u64, sched_seed: u64) -> (Outcome, u64, u64) {
+    use super::threadsim::{run_execution, ExecKnobs};
+    let (p2, f2) = (project.clone(), faults.to_vec());
+    let knobs = ExecKnobs { max_steps: 2_000_000, ..ExecKnobs::default() };
+    let out = run_execution(sched_seed, entropy_seed, mos_simrt::disk::SimDisk::new(), &knobs, move |slot| {
+        let o = build_here(&p2, &f2, style);
+        *slot.lock().unwrap() = Some(o);
     });
-    match res {
-        Ok(o) => o,
-        Err(p) => Outcome {
+    let (tasks, switches) = (out.sched.tasks_seen as u64, out.sched.context_switches);
+    let o = match (out.result, out.panic) {
+        (Some(o), None) => o,
+        (_, p) => Outcome {
             status: "panic".into(),
             files: BTreeMap::new(),
             diag: String::new(),
-            panic: p
-                .first()
-                .map(|p| format!("{} at {}", p.message, p.location))
-                .unwrap_or_default(),
+            panic: p.map(|p| format!("{} at {}", p.message, p.location)).unwrap_or_default(),
             canary: String::new(),
             entropy_calls: 0,
             mono_reads: 0,
             clock_jumps: 0,
         },
-    }
+    };
+    (o, tasks, switches)
+}
+
+fn threads_exe() -> std::path::PathBuf {
+    verif_root().join("target").join("threads").join("release").join("simctl")
+}
+
+fn sched_seed_for(seed: u64, k: u64, j: u64) -> u64 {
+    rng::derive(rng::derive(seed, "hashsim.sched", k), "j", j)
+}
+
+/// One build in a process of the thread flavour, under one schedule.
+fn tbuild(p: &Project, faults: &[Fault], style: u64, entropy_seed: u64, sched_seed: u64) -> Option<Outcome> {
+    static N: std::sync::atomic::AtomicU64 = std::sync::atomic::AtomicU64::new(0);
+    let dir = verif_root().join("target").join("cases");
+    std::fs::create_dir_all(&dir).ok()?;
+    let path = dir.join(format!("t-{}-{}.json", std::process::id(), N.fetch_add(1, std::sync::atomic::Ordering::SeqCst)));
+    let mut c = case_json(p, faults, style, &[entropy_seed]);
+    c["sched_seeds"] = json!([format!("{:#x}", sched_seed)]);
+    write_json(&path, &c).ok()?;
+    let out = std::process::Command::new(threads_exe()).arg("C10").arg("--mode").arg("tbuild").arg("--case").arg(&path).output().ok();
+    let _ = std::fs::remove_file(&path);
+    let out = out?;
+    let text = String::from_utf8_lossy(&out.stdout);
+    let v: Value = serde_json::from_str(text.trim()).ok()?;
+    Outcome::from_full_json(&v)
+}
+
+fn tpair(p: &Project, faults: &[Fault], style: u64, es: u64, sa: u64, sb: u64) -> Option<(String, String, String, Outcome, Outcome)> {
+    let a = tbuild(p, faults, style, es, sa)?;
+    let b = tbuild(p, faults, style, es, sb)?;
+    classify(&a, &b).map(|(c, s, m)| (c, s, m, a, b))
 }
 
 fn strip_idents(msg: &str) -> String {
@@ -577,7 +645,21 @@ fn replay(cli: &Cli, path: &Path) -> i32 {
     }
     let faults = faults_from_json(v.get("write_faults"));
     let separate = v.get("separate_processes").and_then(|b| b.as_bool()).unwrap_or(false);
-    let (a, b) = if separate {
+    let sched_seeds: Vec<u64> = v
+        .get("sched_seeds")
+        .and_then(|s| s.as_array())
+        .map(|a| a.iter().filter_map(|x| x.as_str().and_then(parse_u64)).collect())
+        .unwrap_or_default();
+    let scheduled = sched_seeds.len() == 2;
+    let (a, b) = if scheduled {
+        match (tbuild(&project, &faults, style, seeds[0], sched_seeds[0]), tbuild(&project, &faults, style, seeds[0], sched_seeds[1])) {
+            (Some(a), Some(b)) => (a, b),
+            _ => {
+                eprintln!("harness error: a thread-flavour child process of the replay did not deliver its outcome (is target/threads built? ./check --setup)");
+                return EXIT_HARNESS;
+            }
+        }
+    } else if separate {
         match (xbuild(cli, &project, &faults, style, seeds[0]), xbuild(cli, &project, &faults, style, seeds[1])) {
             (Some(a), Some(b)) => (a, b),
             _ => {
@@ -593,7 +675,7 @@ fn replay(cli: &Cli, path: &Path) -> i32 {
     let r = match classify(&a, &b) {
         Some((class, sig, msg)) => ReplayResult {
             violated: true,
-            sig: if separate { format!("x:{}", sig) } else { sig },
+            sig: if scheduled { format!("t:{}", sig) } else if separate { format!("x:{}", sig) } else { sig },
             class,
             message: format!(
                 "{}\n--- entropy seed {:#x}: status={} ---\n{}{}\n--- entropy seed {:#x}: status={} ---\n{}{}",
@@ -695,6 +777,47 @@ pub fn main(cli: &Cli) -> i32 {
         let o = run_build(&project, &faults_from_json(v.get("write_faults")), s0, v.get("style").and_then(|s| s.as_u64()).unwrap_or(0));
         println!("{}", o.to_full_json());
         return EXIT_OK;
+    }
+    if cli.mode.as_deref() == Some("tbuild") || cli.mode.as_deref() == Some("tdigests") {
+        #[cfg(not(mos_verif_threads))]
+        {
+            eprintln!("harness error: mode {:?} needs the thread flavour of simctl", cli.mode);
+            return EXIT_HARNESS;
+        }
+        #[cfg(mos_verif_threads)]
+        {
+            if cli.mode.as_deref() == Some("tbuild") {
+                let v = match cli.opts.get("case").and_then(|p| read_json(Path::new(p)).ok()) {
+                    Some(v) => v,
+                    None => return EXIT_HARNESS,
+                };
+                let project = match v.get("project").and_then(Project::from_json) {
+                    Some(p) => p,
+                    None => return EXIT_HARNESS,
+                };
+                let first = |k: &str| v.get(k).and_then(|s| s.as_array()).and_then(|a| a.first()).and_then(|x| x.as_str().and_then(parse_u64));
+                let (es, ss) = match (first("entropy_seeds"), first("sched_seeds")) {
+                    (Some(a), Some(b)) => (a, b),
+                    _ => return EXIT_HARNESS,
+                };
+                let _quiet = super::threadsim::StderrSilencer::new();
+                let (o, _, _) = run_build_scheduled(&project, &faults_from_json(v.get("write_faults")), es, v.get("style").and_then(|s| s.as_u64()).unwrap_or(0), ss);
+                println!("{}", o.to_full_json());
+                return EXIT_OK;
+            }
+            // tdigests: projects --from..--to, each under --scheds schedules (and the entropy seed number 0)
+            let (a, b, n) = (cli.opt_u64("from").unwrap_or(0), cli.opt_u64("to").unwrap_or(0), cli.opt_u64("scheds").unwrap_or(3));
+            let _quiet = super::threadsim::StderrSilencer::new();
+            for k in a..b {
+                let p = project_for(seed, k);
+                let faults = fault_plan_for(seed, k, &p);
+                for j in 0..n {
+                    let (o, tasks, switches) = run_build_scheduled(&p, &faults, entropy_seed_for(seed, k, 0), rng::derive(seed, "hashsim.style", k), sched_seed_for(seed, k, j));
+                    println!("T {} {} {:016x} {} {}", k, j, o.digest(), tasks, switches);
+                }
+            }
+            return EXIT_OK;
+        }
     }
     if cli.mode.as_deref() == Some("xdigests") {
         // child: projects --from..--to, one after the other, each under its entropy seed number --jidx
@@ -917,6 +1040,151 @@ pub fn main(cli: &Cli) -> i32 {
         eprintln!("harness error: a child process of the cross-process stage failed");
         return EXIT_HARNESS;
     }
+    // thread stage: every project built as shuttle executions of the thread flavour, under n_scheds schedules (same
+    // entropy seed): whatever threads a build starts are tasks of the simulator, and the result must not depend on
+    // who ran when
+    let n_scheds: u64 = if matches!(cli.tier, Tier::Thorough) { 8 } else { 3 };
+    let chunks = cli.workers.max(1) as u64;
+    let per = (n_projects + chunks - 1) / chunks;
+    let mut children = vec![];
+    for c in 0..chunks {
+        let (a, b) = (c * per, ((c + 1) * per).min(n_projects));
+        if a >= b {
+            continue;
+        }
+        children.push(
+            std::process::Command::new(threads_exe())
+                .arg("C10")
+                .arg("--mode")
+                .arg("tdigests")
+                .arg("--seed")
+                .arg(seed.to_string())
+                .arg("--from")
+                .arg(a.to_string())
+                .arg("--to")
+                .arg(b.to_string())
+                .arg("--scheds")
+                .arg(n_scheds.to_string())
+                .stdout(std::process::Stdio::piped())
+                .stderr(std::process::Stdio::null())
+                .spawn(),
+        );
+    }
+    let mut td: BTreeMap<(u64, u64), u64> = BTreeMap::new();
+    let (mut t_execs, mut t_max_tasks, mut t_switches, mut t_multi) = (0u64, 0u64, 0u64, 0u64);
+    let mut t_failed = false;
+    for child in children {
+        match child.and_then(|c| c.wait_with_output()) {
+            Ok(out) if out.status.success() => {
+                for l in String::from_utf8_lossy(&out.stdout).lines() {
+                    let w: Vec<&str> = l.split_whitespace().collect();
+                    if w.len() == 6 && w[0] == "T" {
+                        if let (Ok(k), Ok(j), Ok(d), Ok(tasks), Ok(sw)) = (w[1].parse::<u64>(), w[2].parse::<u64>(), u64::from_str_radix(w[3], 16), w[4].parse::<u64>(), w[5].parse::<u64>()) {
+                            td.insert((k, j), d);
+                            t_execs += 1;
+                            t_max_tasks = t_max_tasks.max(tasks);
+                            t_switches += sw;
+                            // (the root task and the clock daemon are always there)
+                            if tasks > 2 {
+                                t_multi += 1;
+                            }
+                        }
+                    }
+                }
+            }
+            _ => t_failed = true,
+        }
+    }
+    let (mut t_confirmed, mut t_unconfirmed) = (0u64, 0u64);
+    for k in 0..n_projects {
+        let ds: Vec<u64> = (0..n_scheds).filter_map(|j| td.get(&(k, j)).cloned()).collect();
+        if ds.len() as u64 != n_scheds {
+            t_failed = true;
+            continue;
+        }
+        let mut h = 0xcbf2_9ce4_8422_2325u64;
+        for d in &ds {
+            h = rng::fnv64_extend(h, &d.to_le_bytes());
+        }
+        acc.digests.push((2_000_000_000 + k, h));
+        let other = match ds.iter().position(|d| *d != ds[0]) {
+            Some(j) => j as u64,
+            None => continue,
+        };
+        if determinism {
+            continue;
+        }
+        let p = project_for(seed, k);
+        let faults = fault_plan_for(seed, k, &p);
+        let style = rng::derive(seed, "hashsim.style", k);
+        let es = entropy_seed_for(seed, k, 0);
+        let (sa, sb) = (sched_seed_for(seed, k, 0), sched_seed_for(seed, k, other));
+        match tpair(&p, &faults, style, es, sa, sb) {
+            Some((class, sig, msg, _, _)) => {
+                t_confirmed += 1;
+                let sig = format!("t:{}", sig);
+                if acc.violations.iter().any(|v| v.sig == sig) {
+                    continue;
+                }
+                // minimise: files, then lines, while the two schedules still disagree in the same way
+                let still = |q: &Project| matches!(tpair(q, &faults, style, es, sa, sb), Some((c, _, _, _, _)) if c == class);
+                let mut mp = p.clone();
+                for n in mp.files.keys().cloned().collect::<Vec<_>>() {
+                    if n == "main.asm" || mp.toml.contains(&format!("\"{}\"", n)) {
+                        continue;
+                    }
+                    let mut cand = mp.clone();
+                    cand.files.remove(&n);
+                    if still(&cand) {
+                        mp = cand;
+                    }
+                }
+                for n in mp.files.keys().cloned().collect::<Vec<_>>() {
+                    let text = match String::from_utf8(mp.files[&n].clone()) {
+                        Ok(t) => t,
+                        Err(_) => continue,
+                    };
+                    let lines: Vec<String> = text.lines().map(|l| l.to_string()).collect();
+                    if lines.len() < 2 {
+                        continue;
+                    }
+                    let base = mp.clone();
+                    let kept = ddmin(lines, &mut |ls: &[String]| {
+                        let mut cand = base.clone();
+                        cand.files.insert(n.clone(), (ls.join("\n") + "\n").into_bytes());
+                        still(&cand)
+                    });
+                    let mut cand = mp.clone();
+                    cand.files.insert(n.clone(), (kept.join("\n") + "\n").into_bytes());
+                    if still(&cand) {
+                        mp = cand;
+                    }
+                }
+                let msg = tpair(&mp, &faults, style, es, sa, sb).map(|x| x.2).unwrap_or(msg);
+                acc.violations.push(Violation {
+                    property: PROP,
+                    class,
+                    sig,
+                    message: format!("C10 divergence between two SCHEDULES of the threads of one build (same process state otherwise) in project #{} ({}): {}", k, p.label, msg),
+                    run_index: k,
+                    replay: {
+                        let mut r = case_json(&mp, &faults, style, &[es, es]);
+                        r["separate_processes"] = json!(false);
+                        r["sched_seeds"] = json!([format!("{:#x}", sa), format!("{:#x}", sb)]);
+                        r["seed"] = json!(format!("{:#x}", seed));
+                        r["project_index"] = json!(k);
+                        r["original_project"] = p.to_json();
+                        r
+                    },
+                });
+            }
+            None => t_unconfirmed += 1,
+        }
+    }
+    if t_failed {
+        eprintln!("harness error: a child process of the thread stage failed (is target/threads built? ./check --setup)");
+        return EXIT_HARNESS;
+    }
     acc.digests.sort();
     let mut batch = 0xcbf2_9ce4_8422_2325u64;
     for (k, h) in &acc.digests {
@@ -953,6 +1221,7 @@ pub fn main(cli: &Cli) -> i32 {
         json!(acc.panics_all_seeds),
     );
     ev.set("batch_hash", json!(format!("{:016x}", batch)));
+    ev.set("thread_stage", json!({"builds_as_shuttle_executions": t_execs, "schedules_per_project": n_scheds, "most_tasks_in_one_build (root + clock daemon = 2: the build started no thread)": t_max_tasks, "builds_that_started_threads": t_multi, "context_switches": t_switches, "divergences_confirmed": t_confirmed, "digest_differences_not_confirmed": t_unconfirmed}));
     ev.set("cross_process_stage", json!({"projects_built_in_two_real_processes": x_pairs, "divergences_confirmed_with_one_process_per_build": x_confirmed, "digest_differences_not_confirmed": x_unconfirmed}));
     ev.set("simulated_time_ms", json!(0));
     ev.set("components", json!({
